@@ -30,7 +30,7 @@ from pyvc.values import SInt, SBool, SStr, SBytes, Blob, And, Or, Not, Implies, 
 from pyvc.interp import PyRaise
 from pyvc.models import GhostLock
 from pyvc.harness import native_call
-from .common import raw
+from .common import harness_connection, lock_name, native_connection, raw
 from .codec import _key_of
 
 ASSUMPTIONS = [
@@ -99,11 +99,12 @@ class FakeToken(object):
 
 def make_login(I, tr, token=True, proto=757):
     I.override(threading.RLock, lambda I_: GhostLock(), kind='assumed')
-    conn = object.__new__(Connection)
+    conn = harness_connection()
     ctx = ConnectionContext(protocol_version=proto)
     lock = GhostLock()
     sock, fobj = types.SimpleNamespace(name='raw-socket'), types.SimpleNamespace(name='raw-file')
-    conn.__dict__.update(context=ctx, _write_lock=lock, socket=sock, file_object=fobj, _outgoing_packet_queue=deque(),
+    conn.__dict__[lock_name()] = lock
+    conn.__dict__.update(context=ctx, socket=sock, file_object=fobj, _outgoing_packet_queue=deque(),
                          early_outgoing_packet_listeners=[], outgoing_packet_listeners=[],
                          options=types.SimpleNamespace(compression_enabled=False, compression_threshold=-1, address='a', port=1),
                          auth_token=FakeToken(tr) if token else None, connected=True, spawned=False)
@@ -216,9 +217,9 @@ def replay_login_live(label):
         def send(self, d):
             sent.append(bytes(d))
     joined = []
-    conn = object.__new__(Connection)
+    conn = native_connection()
     conn.context = ConnectionContext(protocol_version=757)
-    conn._write_lock = threading.RLock()
+    setattr(conn, lock_name(), threading.RLock())
     conn.socket, conn.file_object = Sock(), types.SimpleNamespace()
     conn._outgoing_packet_queue = deque()
     conn.early_outgoing_packet_listeners, conn.outgoing_packet_listeners = [], []
@@ -451,7 +452,7 @@ def replay_disconnect():
     n = 0
     for body in bodies:
         n += 1
-        conn = object.__new__(Connection)
+        conn = native_connection()
         conn.context = ConnectionContext(protocol_version=757)
         r = LoginReactor(conn)
         pkt = clientbound.login.DisconnectPacket()
@@ -579,9 +580,9 @@ def replay_login_tables():
                             observed='%r, specification: %r' % (got, want))
         if p < REF.LOGIN_PLUGIN_FROM:
             continue
-        conn = object.__new__(Connection)
+        conn = native_connection()
         conn.context, conn._outgoing_packet_queue = ctx, deque()
-        conn._write_lock = threading.RLock()
+        setattr(conn, lock_name(), threading.RLock())
         r = LoginReactor(conn)
         body = W.varint_enc(want_cb['PluginRequestPacket']) + W.varint_enc(300) + b'\x03a:b' + b'xyz'
         r.clientbound_packets = {c.get_id(ctx): c for c in r.get_clientbound_packets(ctx)} if not hasattr(r, 'clientbound_packets') else r.clientbound_packets
